@@ -15,6 +15,8 @@
    throw branches of the callbacks are part of `step`.
    Helper lemmas: UtapModel/Lemmas/C08.lean.  This file: property theorems only. -/
 import UtapModel.Lemmas.C08
+import UtapModel.Lemmas.C08Own
+import UtapModel.Lemmas.C08Init
 
 namespace UtapModel.Builder
 
@@ -242,17 +244,90 @@ theorem C08_instances (cs : List Call) (r : Obj) (I : Inst) (h : (run BState.ini
     InstOk (run BState.init cs).syms I :=
   (C08_reachable cs).insts r I h
 
-/- Not proved here (full statements, kept for the record):
+/-! ### clauses that depend on the callers' scope discipline
 
-   theorem C08_own_template (cs) (hsafe : SafeRun BState.init cs) : every edge endpoint `.loc i` / `.bp i` of an edge of
-     template t has `locs[i].templ = t` / `bps[i].templ = t`, and `T.init = some sid → ∃ i, user sid = .loc i ∧ locs[i].templ = t`
-   theorem C08_init_location (cs) (hsafe) (hclean : (run init cs).diags = 0) (hshape : ReaderShape cs) :
-     every TA template has `init = some _`
+   `SafeRun s cs` (Lemmas/C08Own.lean): every popping callback other than proc_end is issued when the frame on top of the
+   stack is neither the global frame's sole entry nor the frame of the template being parsed -- i.e. it removes a frame that
+   was pushed after the template was entered.  This is what the grammar and the XML reader guarantee (every pop sits behind its
+   push in straight-line code; error recovery can only drop pops, never add them); it is evaluated on every real callback
+   trace by drv_c08 (`S ok`).  Without it the clauses are false of the *model*: proc_begin A, proc_begin B, proc_edge_end,
+   proc_edge_begin would attach A's locations to an edge of B. -/
 
-   Both need the scope discipline of the callers (`safeCall`: no pop below the frame of the template being parsed, the
-   C01 stack-safety statement) and an invariant on parent chains in the frame store.  They are covered by evaluation, not
-   by proof: `ownTemplateB` (Model/BuilderInv.lean) is evaluated by drv_c08 on the model state of every replayed real
-   trace together with `safeCall` on every call, and the walker checks both clauses on the real Document.  The unchanged
-   library violates C08_init_location for the empty process body (known finding walker:init:missing-empty-template). -/
+/-- every edge has its source and its target in the edge's own template -/
+theorem C08_own_template (cs : List Call) (hs : SafeRun BState.init cs) (t : Nat) (T : Templ) (e : Edge)
+    (hT : (run BState.init cs).doc.templates[t]? = some T) (he : e ∈ T.edges) :
+    (∀ i, e.src = some (.loc i) → ∃ l, (run BState.init cs).doc.locs[i]? = some l ∧ l.templ = t) ∧
+    (∀ i, e.srcb = some (.bp i) → ∃ b, (run BState.init cs).doc.bps[i]? = some b ∧ b.templ = t) ∧
+    (∀ i, e.dst = some (.loc i) → ∃ l, (run BState.init cs).doc.locs[i]? = some l ∧ l.templ = t) ∧
+    (∀ i, e.dstb = some (.bp i) → ∃ b, (run BState.init cs).doc.bps[i]? = some b ∧ b.templ = t) := by
+  obtain ⟨_, ho⟩ := scope_reachable cs BState.init Inv2_init OwnT_init hs
+  obtain ⟨h1, h2, h3, h4⟩ := ho.edges t T e hT he
+  have locOf : ∀ (o : Option Obj) i, ownEnd (run BState.init cs).view t o → o = some (.loc i) →
+      ∃ l, (run BState.init cs).doc.locs[i]? = some l ∧ l.templ = t := by
+    intro o i h hi
+    have := h _ hi
+    simp only [View.objTempl, BState.view, List.getElem?_map] at this
+    cases hl : (run BState.init cs).doc.locs[i]? with
+    | none => simp [hl] at this
+    | some l => simp [hl] at this; exact ⟨l, rfl, this⟩
+  have bpOf : ∀ (o : Option Obj) i, ownEnd (run BState.init cs).view t o → o = some (.bp i) →
+      ∃ b, (run BState.init cs).doc.bps[i]? = some b ∧ b.templ = t := by
+    intro o i h hi
+    have := h _ hi
+    simp only [View.objTempl, BState.view, List.getElem?_map] at this
+    cases hl : (run BState.init cs).doc.bps[i]? with
+    | none => simp [hl] at this
+    | some l => simp [hl] at this; exact ⟨l, rfl, this⟩
+  exact ⟨fun i hi => locOf _ i h1 hi, fun i hi => bpOf _ i h2 hi, fun i hi => locOf _ i h3 hi, fun i hi => bpOf _ i h4 hi⟩
+
+/-- a template's initial location, once set, is one of the template's own locations (and `init` is that location's symbol) -/
+theorem C08_init_own_location (cs : List Call) (hs : SafeRun BState.init cs) (t : Nat) (T : Templ) (sid : SymId)
+    (hT : (run BState.init cs).doc.templates[t]? = some T) (hi : T.init = some sid) :
+    ∃ i l, symUser (run BState.init cs).syms sid = some (.loc i) ∧ (run BState.init cs).doc.locs[i]? = some l ∧
+      l.templ = t ∧ l.uid = sid := by
+  obtain ⟨_, ho⟩ := scope_reachable cs BState.init Inv2_init OwnT_init hs
+  obtain ⟨hown, sym, hsym, hloc⟩ := ho.init t T sid hT hi
+  obtain ⟨i, hu, hd⟩ := (C08_reachable cs).backLoc sid sym hsym hloc
+  have hsu : symUser (run BState.init cs).syms sid = some (.loc i) := by simp [symUser, hsym, hu]
+  rw [hsu] at hown
+  simp only [View.objTempl, BState.view, List.getElem?_map] at hown
+  simp only [Doc.uidOf] at hd
+  cases hl : (run BState.init cs).doc.locs[i]? with
+  | none => simp [hl] at hown
+  | some l =>
+    simp [hl] at hown hd
+    exact ⟨i, l, hsu, hl, hown, hd⟩
+
+-- the hypothesis is satisfiable by a non-trivial list (two templates, edges in both, an abandoned quantifier frame in between):
+example : SafeRun BState.init [.procBegin "A" true, .procLocation "a" false false, .procLocationInit "a", .procEdgeBegin "a" "a" true,
+    .frag 0 1, .frag 0 1, .typePrim true 2 false, .quantBegin "i", .handleError, .procEdgeEnd, .procEnd,
+    .procBegin "B" true, .procLocation "a" false false, .procLocationInit "a", .procEdgeBegin "a" "a" true, .procEdgeEnd, .procEnd] := by
+  simp only [SafeRun]; decide
+
+/-- "normal return and no errors => every TA template has an initial location": if the reader follows the protocol
+    `initShape` (Lemmas/C08Init.lean: a TA template is entered outside any template, and before its proc_end the reader issues
+    proc_location_init or records a diagnostic) and no diagnostic was recorded, every (non-dynamic) TA template has `init` set;
+    with `C08_init_own_location` it is one of the template's own locations.
+    The XML reader follows the protocol (xmlreader.cpp templ()/init(): "$Missing_initial_location"); the XTA grammar does
+    not: `ProcBody` has an empty alternative -- see `C08_empty_body_witness` and the known finding. -/
+theorem C08_init_location (cs : List Call) (hshape : initShape false cs = true) (hclean : (run BState.init cs).diags = 0)
+    (t : Nat) (T : Templ) (hT : (run BState.init cs).doc.templates[t]? = some T) (hta : T.isTA = true) (hdy : T.dynamic = false) :
+    T.init.isSome = true := by
+  have := init_location_run cs BState.init false InitInv_init hshape hclean
+  rcases this t T hT hta hdy with h | ⟨h, _⟩
+  · exact h
+  · cases h
+
+-- hypotheses satisfiable: a template with a location and its init
+example : initShape false [.procBegin "P" true, .procLocation "A" false false, .procLocationInit "A", .procEnd] = true ∧
+    (run BState.init [.procBegin "P" true, .procLocation "A" false false, .procLocationInit "A", .procEnd]).diags = 0 := by decide
+
+/-- the exception: the callbacks of XTA `process P() { }` (proc_begin, proc_end) violate the protocol, record no diagnostic and
+    leave a TA template without initial location -- the negation of the init clause on a concrete witness -/
+theorem C08_empty_body_witness :
+    initShape false [.procBegin "P" true, .procEnd] = false ∧
+    (run BState.init [.procBegin "P" true, .procEnd]).diags = 0 ∧
+    ((run BState.init [.procBegin "P" true, .procEnd]).doc.templates.map (fun T => (T.isTA, T.dynamic, T.init))) = [(true, false, none)] := by
+  decide
 
 end UtapModel.Builder
